@@ -16,7 +16,7 @@ import typing
 
 from .. import campaign, codec_eval, core, lab, refmodel, valuegen
 
-SPEC = {"n_values": 10, "n_byte_batches": 1, "n_c": 3, "n_cpp": 3, "py": True, "max_types": 5, "domains": ["range", "range", "storage"]}
+SPEC = {"n_values": 10, "n_byte_batches": 1, "n_c": 3, "n_cpp": 3, "py": True, "max_types": 5, "domains": ["range", "range", "storage", "pyarr"]}
 
 
 def roundtrip(ctx: core.Ctx, ex: campaign.Executed, collect_fail):
